@@ -844,3 +844,65 @@ def falsy_param_states(states, param):
         if ok:
             keep.append(s)
     return keep
+
+
+def path_steps(fi, max_paths=64):
+    """Every path of a loop-free function to a `return`, as the ordered list of its bindings and conditions, NOT
+    inlined: [{"steps": [("bind", name, value expr) | ("cond", test expr, polarity)], "ret": return node}].  Tuple
+    assignments are split, augmented assignments become `x = x op v`, assignment expressions inside a condition become
+    a binding before it.  Rules evaluate the steps in a domain of their own (e.g. rational-function normal forms with
+    one value per local), which avoids the repeated re-normalisation of the fully inlined text."""
+    import copy
+
+    from rsa.cfg import cfg_of
+
+    cfg = cfg_of(fi)
+    if any(n.kind == "loop" or n.label == "while-head" for n in cfg.nodes):
+        raise NotEvaluable("function has a loop")
+    rets = [n.id for n in cfg.nodes if n.kind == "return"]
+    paths = cfg.paths(targets=rets, max_visits=1, limit=max_paths + 1)
+    if len(paths) > max_paths:
+        raise NotEvaluable("too many paths")
+    out = []
+    for path in paths:
+        steps = []
+
+        class W(ast.NodeTransformer):
+            def visit_NamedExpr(self, n):
+                v = self.visit(n.value)
+                if isinstance(n.target, ast.Name):
+                    steps.append(("bind", n.target.id, copy.deepcopy(v)))
+                    return ast.copy_location(ast.Name(id=n.target.id, ctx=ast.Load()), n)
+                return v
+
+        ret = None
+        for nid, lab in path:
+            node = cfg.nodes[nid]
+            st = node.ast
+            if node.kind == "cond" and st is not None:
+                steps.append(("cond", W().visit(copy.deepcopy(st)), lab))
+            elif node.kind == "stmt" and isinstance(st, (ast.Assign, ast.AnnAssign)) and getattr(st, "value", None) is not None:
+                tgs = st.targets if isinstance(st, ast.Assign) else [st.target]
+                val = W().visit(copy.deepcopy(st.value))
+                for tg in tgs:
+                    if isinstance(tg, ast.Name):
+                        steps.append(("bind", tg.id, val))
+                    elif isinstance(tg, (ast.Tuple, ast.List)) and all(isinstance(x, ast.Name) for x in tg.elts):
+                        if isinstance(val, (ast.Tuple, ast.List)) and len(val.elts) == len(tg.elts):
+                            # parallel assignment: all right-hand sides see the old values
+                            tmp = [(f"__par{len(steps)}_{i}", v) for i, v in enumerate(val.elts)]
+                            for nm, v in tmp:
+                                steps.append(("bind", nm, v))
+                            for x, (nm, _) in zip(tg.elts, tmp):
+                                steps.append(("bind", x.id, ast.Name(id=nm, ctx=ast.Load())))
+                        else:
+                            for i, x in enumerate(tg.elts):
+                                steps.append(("bind", x.id, ast.Subscript(value=copy.deepcopy(val), slice=ast.Constant(value=i), ctx=ast.Load())))
+                    else:
+                        raise NotEvaluable(f"assignment target not modelled: {ast.unparse(tg)[:40]}")
+            elif node.kind == "stmt" and isinstance(st, ast.AugAssign) and isinstance(st.target, ast.Name):
+                steps.append(("bind", st.target.id, ast.BinOp(left=ast.Name(id=st.target.id, ctx=ast.Load()), op=st.op, right=W().visit(copy.deepcopy(st.value)))))
+            elif node.kind == "return" and st is not None:
+                ret = st
+        out.append({"steps": steps, "ret": ret})
+    return out
